@@ -19,8 +19,10 @@ structure SafeRow where
   chain : Bool
   safeNH : Bool
   chainNH : Bool
+  depth : Nat := 0
 
-/-- `FILL_SAFE_UPDATE` + `APPLY_SAFE_UPDATE` + clearing the flags (`_update_meta_safe`).
+/-- `FILL_SAFE_UPDATE` (duplicates resolved by the deepest derivation) + `APPLY_SAFE_UPDATE` +
+clearing the flags (`_update_meta_safe`).
 The recursion is `UNION ALL` over step products: it does not terminate on a creator cycle. -/
 def KState.updateMetaSafe (s : KState) : M KState := do
   let flagged := s.nodes.filter fun n => n.key.kind = .step ∧ n.checkSafe
@@ -41,7 +43,7 @@ def KState.updateMetaSafe (s : KState) : M KState := do
     rows.flatMap fun r =>
       (s.nodes.filter fun p => p.key.kind = .step ∧ p.creator = some r.key ∧ p.key ≠ r.key).map fun p =>
         { key := p.key, safe := r.chain, chain := r.chain && p.sstate.active && p.holding == 0,
-          safeNH := r.chainNH, chainNH := r.chainNH && p.sstate.active }
+          safeNH := r.chainNH, chainNH := r.chainNH && p.sstate.active, depth := r.depth + 1 }
   let rec go (fuel : Nat) (frontier acc : List SafeRow) : Option (List SafeRow) :=
     match fuel with
     | 0 => if frontier.isEmpty then some acc else none
@@ -54,9 +56,14 @@ def KState.updateMetaSafe (s : KState) : M KState := do
   match go (s.nodes.length + 1) seeds seeds with
   | none => throw .hang
   | some rows =>
+    -- duplicates: keep the row derived through the longest chain (`MAX(depth)`)
     let s := s.modifyWhere (fun n => rows.any (·.key = n.key)) fun n =>
       let mine := rows.filter (·.key = n.key)
-      { n with safe := mine.all (·.safe), safeNH := mine.all (·.safeNH) }
+      match mine.foldl (fun best r => match best with
+          | none => some r
+          | some b => if b.depth < r.depth then some r else some b) none with
+      | some r => { n with safe := r.safe, safeNH := r.safeNH }
+      | none => n
     pure (s.modifyWhere (fun n => n.key.kind = .step) fun n => { n with checkSafe := false })
 
 def KConfig.threshold (cfg : KConfig) : Need :=
@@ -127,12 +134,15 @@ def KState.updateMetaAfter (s : KState) (cfg : KConfig) : M KState := do
 def lookupUnavailable (st : FileState) (dyn detached : Bool) : Bool :=
   ((unavailableInputTable.find? fun e => e.1 = (st, dyn, detached)).map (·.2)).getD true
 
+/-- One dependency edge blocks its sink: `UNAVAILABLE_INPUT_WHERE` on the source file. -/
+def KState.inputBlocks (s : KState) (d : Dep) : Bool :=
+  match s.find? d.src with
+  | some n => n.key.kind = .file && lookupUnavailable n.fstate d.dyn n.detached
+  | none => false
+
 /-- `RECOMPUTE_READY` for one step, from the current graph. -/
 def KState.computeReady (s : KState) (step : Key) : Bool :=
-  !(s.deps.any fun d => d.snk = step &&
-    (match s.find? d.src with
-     | some n => n.key.kind = .file && lookupUnavailable n.fstate d.dyn n.detached
-     | none => false))
+  !(s.deps.any fun d => d.snk = step && s.inputBlocks d)
 
 /-- `_update_meta_ready` -/
 def KState.updateMetaReady (s : KState) : KState :=
